@@ -570,6 +570,9 @@ var windowContexts = [][2]string{
 	{`{"a":`, `}`},
 	{`[1,`, `,2]`},
 	{`{"a":[`, `],"b":null}`},
+	// the window is followed by an escape sequence inside the string
+	{`["`, `\""]`},
+	{`["`, `\\","x"]`},
 }
 
 // H_Window: a concrete JSON context with a window of m fully symbolic bytes
